@@ -188,7 +188,14 @@ def gatherShapes (sg : Graph) : Nat → Nat → List Term → Gathered → Excep
     let condChildren : List Term := (sg.objects s (sh "rule")).flatMap fun r =>
       (sg.objects r (sh "condition")).flatMap fun c =>
         (if sg.objects c rdfFirst ≠ [] then (rdfListItems sg c).getD [] else [c]).filter fun i => !i.isLit
-    let children := children ++ condChildren
+    -- the sibling shapes of a qualified value shape (counted against with sh:qualifiedValueShapesDisjoint)
+    let siblingChildren : List Term :=
+      if po.any (fun x => x.1 = shQualifiedValueShape) then
+        (sg.subjects shProperty s).flatMap fun parent =>
+          (sg.objects parent shProperty).flatMap fun ps =>
+            (sg.objects ps shQualifiedValueShape).filter fun q => !q.isLit
+      else []
+    let children := children ++ siblingChildren ++ condChildren
     match (if children = [] then Except.ok acc1 else gatherShapes sg fuel (depth + 1) children acc1) with
     | .error e => .error e
     | .ok acc2 => gatherShapes sg (fuel+1) depth rest acc2
